@@ -632,6 +632,11 @@ def pair(draw, max_cells=5, dup_ids=False):
     a = draw(notebook(max_cells=max_cells))
     if draw(st.sampled_from(_ONE_IN_TEN)):
         return a, draw(notebook(max_cells=max_cells)), "unrelated"
+    if draw(st.sampled_from(range(14))) == 7:
+        # B differs from A only in the JSON type of a value or two (a grade of 2 points stored as 2.0, a 0/1 flag turned into a boolean)
+        if a["cells"]:
+            a["cells"][draw(st.sampled_from(range(len(a["cells"]))))]["metadata"]["points"] = draw(st.sampled_from([0, 1, 2]))
+        return a, draw(type_only_edit(a)), "type_only"
     return a, draw(edit_notebook(a, "B", max_steps=5, min_steps=1, ops=NB_OPS_DUPID if dup_ids else None)), "edited"
 
 
